@@ -493,7 +493,10 @@ type recvOut struct {
 	data []byte // file content / message
 	err  string
 	path string
+	junk bool // the destination existed before the call
 }
+
+const junkContent = "previous content of the destination file, 64 bytes long ...........\n"
 
 func newStream(c net.Conn, enc bool, v Variant) (*stream.Stream, error) {
 	st := stream.NewStream(c)
@@ -561,8 +564,15 @@ func (w *world) runReceiver(ctx context.Context, conn net.Conn, dir, tag string,
 			continue
 		}
 		path := filepath.Join(dir, fmt.Sprintf("%s-dst-%d", tag, i+1))
+		junk := (w.v.Salt+i)%2 == 1
+		if junk {
+			// the destination already exists with other content: GetFile "creates" it
+			if err := os.WriteFile(path, []byte(junkContent), 0o600); err != nil {
+				return nil, err
+			}
+		}
 		n, err := st.GetFile(ctx, path)
-		o := recvOut{ok: err == nil, n: n, path: path}
+		o := recvOut{ok: err == nil, n: n, path: path, junk: junk}
 		if err != nil {
 			o.err = err.Error()
 		}
@@ -643,7 +653,7 @@ func (w *world) compareRecv(pass string, outs []recvOut, stt *Stats) *Diff {
 			stt.ErrorsAgreed++
 			if o.path != "" {
 				// no allocation by announcement on disk either
-				if fi, err := os.Stat(o.path); err == nil && fi.Size() > int64(w.delivered()) {
+				if fi, err := os.Stat(o.path); err == nil && fi.Size() > int64(w.delivered()) && !(o.junk && string(o.data) == junkContent) {
 					return w.diff(pass, "BoundedAlloc", action, i, fmt.Sprintf("failed transfer left a file of %d bytes, only %d payload bytes ever arrived", fi.Size(), w.delivered()))
 				}
 			}
